@@ -312,6 +312,63 @@ theorem onWrite_needs_backlog (ms : List Move) (inp : PollIn) (o : Outcome) (now
       rw [this] at hww
       simpa [clientFlags] using hww
 
+/-! ### Server::clear() -/
+
+theorem reach_snoc (ms : List Move) (m : Move) : reach (ms ++ [m]) = move (reach ms) m := by
+  unfold reach; rw [runMoves_append]; rfl
+
+/-- clear() (called while run() is not active): no object is live afterwards, every object that was live is `gone` (its
+    remove has completed), both poll tables, the closing set and the interrupt flag are reset and only the default timer is queued -/
+theorem clear_removes_everything (ms : List Move) (hidle : (reach ms).pc = .idle) :
+    (∀ i, ¬ Live (reach (ms ++ [.clear])) i) ∧
+    (∀ i, Live (reach ms) i → (reach (ms ++ [.clear])).gone i = true) ∧
+    (reach (ms ++ [.clear])).sockets = [] ∧ (reach (ms ++ [.clear])).selected = [] ∧
+    (reach (ms ++ [.clear])).closing = [] ∧ (reach (ms ++ [.clear])).queue = [(0, none)] ∧
+    (reach (ms ++ [.clear])).interrupted = false ∧ (reach (ms ++ [.clear])).eventfd = (reach ms).eventfd := by
+  rw [reach_snoc]
+  simp only [move, hidle, if_true]
+  refine ⟨by intro i; simp [clearAll, Live], ?_, rfl, rfl, rfl, rfl, rfl, rfl⟩
+  intro i hl
+  simp only [clearAll, Bool.or_eq_true, liveB, Option.isSome_iff_ne_none]
+  right
+  rcases hl with h | h | h | h
+  · exact Or.inl (Or.inl (Or.inl h))
+  · exact Or.inl (Or.inl (Or.inr h))
+  · exact Or.inl (Or.inr h)
+  · exact Or.inr h
+
+/-- no callback after clear(): an object that was live when clear() was called never receives a callback in any later step of any
+    continuation (new objects get new ids: `ids_never_reused`) -/
+theorem no_callback_after_clear (ms ms' : List Move) (i : Id) (hidle : (reach ms).pc = .idle) (hl : Live (reach ms) i)
+    (inp : PollIn) (o : Outcome) (e : Ev) (he : e ∈ (step (reach (ms ++ .clear :: ms')) inp o).2) : callee e ≠ some i := by
+  have h := removed_never_called (ms ++ [.clear]) ms' i ((clear_removes_everything ms hidle).2.1 i hl) inp o e
+  simp only [List.append_assoc, List.singleton_append] at h
+  exact h he
+
+/-- clear() resets `_interrupted` but does not drain the event descriptor: if an interrupt() had not been consumed, the next
+    epoll_wait of the next run() reports the descriptor once more.  That wake-up is harmless: the poll step reads the descriptor
+    (counter 0 afterwards), makes no callback, does NOT return from run() and keeps what the kernel reported in the batch. -/
+theorem clear_stale_wakeup_is_harmless (s : St) (inp : PollIn) (o : Outcome) (now tmo : Int) (hpc : s.pc = .poll now tmo)
+    (hsel : s.selected = []) (hi : s.interrupted = false) (he : inp.eventfd = true) (hfd : s.eventfd ≠ 0) :
+    (step s inp o).2 = [] ∧ (step s inp o).1.pc = .timers (s.clock + inp.dt) ∧ (step s inp o).1.eventfd = 0 ∧
+    (step s inp o).1.selected = appendSelected s inp.events [] ∧ (step s inp o).1.interrupted = false := by
+  have hp : pollStep s inp = ({ s with clock := s.clock + inp.dt, selected := appendSelected s inp.events [], eventfd := 0 }, none) := by
+    unfold pollStep
+    simp [hsel, he, hfd]
+  unfold step
+  simp only [hpc]
+  rw [hp]
+  unfold dispatch
+  simp [hi, hpc]
+
+/-- interrupt(), clear(), then run(): the stale signal is met at the first poll -/
+def exClear : List Move :=
+  [.mkPair 1, .act (.mkTimer 2 5), .act .interrupt, .clear, .enter, .step {} .all, .step {} .all, .step {} .all]
+
+example : (reach exClear).pc = .poll 1000 300000 ∧ (reach exClear).interrupted = false ∧ (reach exClear).eventfd = 1 ∧
+    (reach exClear).gone 1 = true ∧ (reach exClear).gone 2 = true ∧ (reach exClear).queue = [(301000, none)] ∧
+    (step (reach exClear) { eventfd := true } .all).1.pc = .timers 1000 := by decide
+
 /-! ### listener / establisher branches of the dispatch switch -/
 
 /-- establisher outcomes: a connect event makes exactly one callback — onAbolished when the connect failed (SO_ERROR), else
